@@ -134,23 +134,41 @@ impl<T: DeepCopy + DeserializeInner, const N: usize> DeserializeHelper<Deep> for
     #[inline(always)]
     fn _deserialize_full_inner_impl(backend: &mut impl ReadWithPos) -> deser::Result<Self> {
         let mut res = MaybeUninit::<[T; N]>::uninit();
-        unsafe {
-            for item in &mut res.assume_init_mut().iter_mut() {
-                std::ptr::write(item, T::_deserialize_full_inner(backend)?);
+        let ptr = res.as_mut_ptr() as *mut T;
+        for i in 0..N {
+            match T::_deserialize_full_inner(backend) {
+                // SAFETY: i < N
+                Ok(item) => unsafe { ptr.add(i).write(item) },
+                Err(e) => {
+                    // SAFETY: the first i items have been initialized; drop
+                    // them, as they would be leaked otherwise.
+                    unsafe { core::ptr::drop_in_place(core::ptr::slice_from_raw_parts_mut(ptr, i)) };
+                    return Err(e);
+                }
             }
-            Ok(res.assume_init())
         }
+        // SAFETY: all items have been initialized
+        Ok(unsafe { res.assume_init() })
     }
     #[inline(always)]
     fn _deserialize_eps_inner_impl<'a>(
         backend: &mut SliceWithPos<'a>,
     ) -> deser::Result<<Self as DeserializeInner>::DeserType<'a>> {
         let mut res = MaybeUninit::<<Self as DeserializeInner>::DeserType<'_>>::uninit();
-        unsafe {
-            for item in &mut res.assume_init_mut().iter_mut() {
-                std::ptr::write(item, T::_deserialize_eps_inner(backend)?);
+        let ptr = res.as_mut_ptr() as *mut <T as DeserializeInner>::DeserType<'a>;
+        for i in 0..N {
+            match T::_deserialize_eps_inner(backend) {
+                // SAFETY: i < N
+                Ok(item) => unsafe { ptr.add(i).write(item) },
+                Err(e) => {
+                    // SAFETY: the first i items have been initialized; drop
+                    // them, as they would be leaked otherwise.
+                    unsafe { core::ptr::drop_in_place(core::ptr::slice_from_raw_parts_mut(ptr, i)) };
+                    return Err(e);
+                }
             }
-            Ok(res.assume_init())
         }
+        // SAFETY: all items have been initialized
+        Ok(unsafe { res.assume_init() })
     }
 }
